@@ -1173,6 +1173,16 @@ Proof.
   apply after_bump_skel. eapply skel_allPush; [apply set_reg_skel|]; auto.
 Qed.
 
+(* rebuild(): the storage is replaced (Model/Adapter.rebuild), then changed() *)
+Lemma rebuild_push_skel s r g : allPush s ->
+  skel_eq s (after_bump (set s r (mkRS g (rs_caches (get s r)) (rs_bases (get s r)) (rs_ro (get s r))
+                                      (rs_subs (get s r)) (rs_vro (get s r)) (rs_vgen (get s r))
+                                      (rs_flavour (get s r)))) r).
+Proof.
+  intros Al. eapply skel_eq_trans; [apply (set_reg_skel s r g)|].
+  apply after_bump_skel. eapply skel_allPush; [apply set_reg_skel|]; auto.
+Qed.
+
 Lemma get_app_cases s x i :
   get (s ++ [x]) i = if Nat.ltb i (length s) then get s i else if Nat.eqb i (length s) then x else dummy_rs.
 Proof.
@@ -1234,7 +1244,8 @@ Proof.
   assert (SK : forall s', skel_eq s s' -> PInv s' /\ length s' = length s).
   { intros s' K. split; [eapply PInv_skel; eauto|]. destruct K as ((-> & _) & _); auto. }
   destruct o; cbn [step wf_op n_after fst] in *; try rewrite fst_let;
-    try (apply SK; first [apply with_lookup_push_skel; auto | apply mutate_push_skel; auto | apply skel_eq_refl]; fail);
+    try (apply SK; first [apply with_lookup_push_skel; auto | apply mutate_push_skel; auto | apply skel_eq_refl
+                         | apply rebuild_push_skel; auto]; fail);
     try discriminate.
   - apply andb_true_iff in Wf. destruct Wf as (Fl & Hb). destruct fl; try discriminate.
     apply new_reg_push; auto. apply forallb_ltb; auto.
@@ -1467,6 +1478,45 @@ Proof.
   destruct p; cbn [changed generation]; try rewrite provide_decr_gen; cbn; lia.
 Qed.
 
+Lemma setreg_ver s r g' : VInv s -> r < length s -> generation (rs_reg (get s r)) <= generation g' ->
+  let s4 := set s r (mkRS g' (rs_caches (get s r)) (rs_bases (get s r)) (rs_ro (get s r)) (rs_subs (get s r))
+                          (rs_vro (get s r)) (rs_vgen (get s r)) (rs_flavour (get s r))) in
+  VInv (after_bump s4 r) /\ length (after_bump s4 r) = length s /\
+  (forall i, i <> r -> get (after_bump s4 r) i = get s i) /\
+  gen_of (after_bump s4 r) r = generation g' /\
+  rs_caches (get (after_bump s4 r) r) = empty_caches.
+Proof.
+  intros (Al & R & Sn) Lr Mg s4.
+  assert (L4 : length s4 = length s) by (unfold s4; rewrite set_length; auto).
+  assert (O4 : forall i, i <> r -> get s4 i = get s i) by (intros; unfold s4; rewrite get_set_other; auto).
+  assert (G4 : get s4 r = mkRS g' (rs_caches (get s r)) (rs_bases (get s r)) (rs_ro (get s r))
+                               (rs_subs (get s r)) (rs_vro (get s r)) (rs_vgen (get s r)) (rs_flavour (get s r)))
+    by (unfold s4; rewrite get_set_same; auto).
+  assert (F4 : rs_flavour (get s4 r) = Verifying) by (rewrite G4; cbn; auto).
+  rewrite after_bump_ver; auto; try lia.
+  assert (B4 : forall i, Bs s4 i = Bs s i).
+  { intros i. unfold Bs. destruct (Nat.eq_dec i r) as [->|N]; [rewrite G4; reflexivity|rewrite O4; auto]. }
+  destruct (resnap false s s4 r) as (V' & L'); auto.
+  - intros y b. rewrite B4. apply R.
+  - unfold gen_of. rewrite G4. cbn. auto.
+  - rewrite B4. congruence.
+  - destruct (lookup_changed_ver false s4 r F4) as (_ & O' & G'); [lia|].
+    split; auto. split; auto. split; [|split].
+    + intros i N. rewrite O' by auto. auto.
+    + unfold gen_of. rewrite G', G4. reflexivity.
+    + rewrite G'. reflexivity.
+Qed.
+
+Lemma rebuild_gen W g : generation g < generation (rebuild W g).
+Proof.
+  unfold rebuild.
+  apply (fold_left_inv (fun a => generation g < generation a)).
+  - apply (fold_left_inv (fun a => generation g < generation a)); [cbn; lia|].
+    intros a kv Ha _. destruct (fst kv) as [[req p] n].
+    pose proof (register_gen W a (map Some req) p n (Some (snd kv))). lia.
+  - intros a kv Ha _. pose proof (subscribe_gen W a (map Some (fst (fst kv))) (snd (fst kv)) (snd kv)). lia.
+Qed.
+
 Lemma mutate_ver s r f : VInv s -> r < length s -> (forall g, generation g <= generation (f g)) ->
   VInv (mutate s r f) /\ length (mutate s r f) = length s.
 Proof.
@@ -1591,6 +1641,8 @@ Proof.
   - apply mutate_ver; auto. intros; apply unregister_gen.
   - apply mutate_ver; auto. intros; apply subscribe_gen.
   - apply mutate_ver; auto. intros; apply unsubscribe_gen.
+  - destruct (setreg_ver s r (rebuild W (rs_reg (get s r))) V Wf) as (V' & L' & _); auto.
+    pose proof (rebuild_gen W (rs_reg (get s r))). lia.
 Qed.
 
 Lemma VInv_nil : VInv [].
@@ -1888,6 +1940,13 @@ Section Cleared.
     - apply Nat.ltb_lt in Wf. pose proof Bt as Bt'. unfold changed_gen in Bt'.
       destruct (Nat.eqb _ _) in Bt'; inversion Bt'; subst r.
       apply (mutate_cleared fl s0 m (fun g => unsubscribe W g req p v)); auto. intros; apply unsubscribe_gen.
+    - (* rebuild() *)
+      inversion Bt; subst r. apply Nat.ltb_lt in Wf. destruct fl.
+      + intros r _. apply push_cleared; [|rewrite set_length; auto].
+        eapply PInv_skel; [|exact I]. apply (set_reg_skel s0 m (rebuild W (rs_reg (get s0 m)))).
+      + pose proof (rebuild_gen W (rs_reg (get s0 m))) as Gn.
+        destruct (setreg_ver s0 m (rebuild W (rs_reg (get s0 m))) I Wf) as (V' & L' & O & G & Cm); [lia|].
+        apply (ver_cleared s0 _ m); auto. rewrite G. unfold gen_of. lia.
   Qed.
 
   (* the answers right after a change at m, from any registry below m (warm caches or not) *)
